@@ -238,7 +238,11 @@ impl Out {
         if self.samples.len() < 5 || (idx % 97 == 0 && self.samples.len() < 12) {
             let mut h = human.clone();
             if h.len() > 600 {
-                h.truncate(600);
+                let mut cut = 600;
+                while !h.is_char_boundary(cut) {
+                    cut -= 1;
+                }
+                h.truncate(cut);
                 h.push_str("…");
             }
             self.samples.push(h);
